@@ -46,6 +46,7 @@ func runC05(c *Ctx) {
 	c.rule("C05.1", func() { c05Constants(c) })
 	c.rule("C05.2", func() { c05Unpack(c) })
 	c.rule("C05.3", func() { c05Sample(c) })
+	c.rule("C05.3", func() { c05Mask(c) })
 	c.rule("C05.4", func() { c05KeyUpdate(c) })
 	c.rule("C05.5", func() { c05PacketNumbers(c) })
 }
@@ -593,6 +594,133 @@ func c05Sample(c *Ctx) {
 	}
 }
 
+// c05Mask: how the header-protection mask is applied (RFC 9001 §5.4.1) and, for ChaCha20, that the
+// 5-byte mask buffer is completely re-initialised for every packet.
+func c05Mask(c *Ctx) {
+	const R = "C05.3"
+	for _, spec := range [][2]string{{"aesHeaderProtector", "apply"}, {"chachaHeaderProtector", "applyMask"}} {
+		f := c.fn(hsk, spec[0], spec[1])
+		isLong := c.fld(hsk, spec[0], "isLongHeader")
+		mask := c.fld(hsk, spec[0], "mask")
+		n := 0
+		eachInstr(f, func(i ssa.Instruction) {
+			bo, ok := i.(*ssa.BinOp)
+			if !ok || bo.Op != token.AND {
+				return
+			}
+			k, ok := bo.Y.(*ssa.Const)
+			if !ok {
+				return
+			}
+			// mask[0] & K
+			u, ok := bo.X.(*ssa.UnOp)
+			if !ok {
+				return
+			}
+			ia, ok := u.X.(*ssa.IndexAddr)
+			if !ok || fieldOfAddress(ia) != mask || !ConstI(0)(ia.Index) {
+				return
+			}
+			n++
+			v, _ := constant.Int64Val(k.Value)
+			long := dominatedByEdge(bo.Block(), BoolTrue(Load(isLong)), false)
+			want := int64(0x1f)
+			if long {
+				want = 0x0f
+			}
+			c.Check(v == want, R, fmt.Sprintf("mask:%s first byte masked with %#x (long=%v)", spec[0], want, long), c.P.InstrPos(i), "RFC 9001 §5.4.1: 4 bits of a long header's first byte, 5 bits of a short header's")
+		})
+		c.Floor(R, "first-byte mask sites in "+spec[0], n, 2)
+		// packet number bytes use mask[i+1]
+		nIdx := 0
+		eachInstr(f, func(i ssa.Instruction) {
+			ia, ok := i.(*ssa.IndexAddr)
+			if !ok || fieldOfAddress(ia) != mask || ConstI(0)(ia.Index) {
+				return
+			}
+			nIdx++
+			c.Check(BinV(token.ADD, Any(), ConstI(1))(ia.Index), R, "mask:"+spec[0]+" packet number byte i uses mask[i+1]", c.P.InstrPos(i), "mask[0] is for the first byte, mask[1..4] for the packet number")
+		})
+		c.Floor(R, "packet-number mask sites in "+spec[0], nIdx, 1)
+	}
+	// ChaCha20: the keystream is XORed into the mask buffer, so the buffer must be all zero first
+	ap := c.fn(hsk, "chachaHeaderProtector", "apply")
+	mask := c.fld(hsk, "chachaHeaderProtector", "mask")
+	arrLen := int64(0)
+	if a, ok := mask.Type().Underlying().(*types.Array); ok {
+		arrLen = a.Len()
+	}
+	c.Check(arrLen == 5, R, "mask:chacha mask is 5 bytes", "-", "one byte for the first byte, four for the packet number")
+	zeroStores := findInstrs(ap, func(i ssa.Instruction) bool {
+		st, ok := i.(*ssa.Store)
+		if !ok {
+			return false
+		}
+		ia, ok := st.Addr.(*ssa.IndexAddr)
+		return ok && fieldOfAddress(ia) == mask && ConstI(0)(st.Val)
+	})
+	c.Floor(R, "mask zeroing store", len(zeroStores), 1)
+	for _, in := range zeroStores {
+		idx := in.(*ssa.Store).Addr.(*ssa.IndexAddr).Index
+		// loop index φ compared with the array length
+		okBound := false
+		if ph, ok := idx.(*ssa.Phi); ok && ph.Referrers() != nil {
+			startsAt0 := false
+			for _, e := range ph.Edges {
+				if ConstI(0)(e) {
+					startsAt0 = true
+				}
+			}
+			for _, r := range *ph.Referrers() {
+				if bo, ok := r.(*ssa.BinOp); ok && bo.Op == token.LSS && bo.X == ssa.Value(ph) && ConstI(arrLen)(bo.Y) {
+					okBound = startsAt0
+				}
+			}
+		}
+		c.Check(okBound, R, "mask:chacha mask cleared over its whole length before use", c.P.InstrPos(in), "XORKeyStream(mask, mask) yields the keystream only if all 5 bytes are zero; a byte left over from the previous packet corrupts the 4th packet-number byte")
+	}
+	xks := func(i ssa.Instruction) bool {
+		cl, ok := i.(*ssa.Call)
+		if !ok {
+			return false
+		}
+		o := calleeObj(&cl.Call)
+		return o != nil && o.Name() == "XORKeyStream"
+	}
+	// the clearing loop comes first: its header dominates the keystream call
+	for _, x := range findInstrs(ap, xks) {
+		okDom := false
+		for _, z := range zeroStores {
+			// loop header = the block whose If compares the index φ; it dominates the body
+			for d := z.Block(); d != nil; d = d.Idom() {
+				if dominatedByBlock(x.Block(), d) && d != ap.Blocks[0] {
+					okDom = true
+				}
+			}
+		}
+		c.Check(okDom, R, "order:mask clearing loop precedes the keystream generation", c.P.InstrPos(x), "clear, then XOR")
+	}
+	// counter = first 4 sample bytes (little endian), nonce = the remaining 12
+	eachInstr(ap, func(i ssa.Instruction) {
+		cl, ok := i.(*ssa.Call)
+		if !ok {
+			return
+		}
+		o := calleeObj(&cl.Call)
+		if o == nil {
+			return
+		}
+		switch o.Name() {
+		case "NewUnauthenticatedCipher":
+			sl, ok := cl.Call.Args[1].(*ssa.Slice)
+			c.Check(ok && ParamV("sample")(sl.X) && sl.Low != nil && ConstI(4)(sl.Low) && sl.High == nil, R, "shape:chacha nonce = sample[4:]", c.P.InstrPos(i), "RFC 9001 §5.4.4")
+		case "Uint32":
+			sl, ok := cl.Call.Args[len(cl.Call.Args)-1].(*ssa.Slice)
+			c.Check(ok && ParamV("sample")(sl.X) && sl.Low == nil && sl.High != nil && ConstI(4)(sl.High), R, "shape:chacha counter = LE32(sample[:4])", c.P.InstrPos(i), "RFC 9001 §5.4.4")
+		}
+	})
+}
+
 func c05KeyUpdate(c *Ctx) {
 	const R = "C05.4"
 	roll := c.obj(hsk, "updatableAEAD", "rollKeys")
@@ -694,6 +822,19 @@ func c05PacketNumbers(c *Ctx) {
 		for _, w := range ws[funcObj(pop)] {
 			ok := BinV(token.ADD, Load(next), ConstI(1))(w.Val) || BinV(token.ADD, Load(next), ConstI(2))(w.Val)
 			c.Check(ok, R, "shape:"+T+".next only increases", c.P.InstrPos(w.Instr), "packet numbers are never reused")
+		}
+	}
+	// the reference for packet-number recovery only moves forward
+	for _, spec := range [][2]string{{"updatableAEAD", "Open"}, {"longHeaderOpener", "Open"}} {
+		hr := c.fld(hsk, spec[0], "highestRcvdPN")
+		f := c.fn(hsk, spec[0], spec[1])
+		ws := c.checkWriters(R, hr, c.set([3]string{hsk, spec[0], spec[1]}), 1)
+		for _, w := range ws[funcObj(f)] {
+			c.Check(MinMaxOf("max", Load(hr), ParamV("pn"))(w.Val), R, "shape:"+spec[0]+".highestRcvdPN=max(highestRcvdPN, pn)", c.P.InstrPos(w.Instr),
+				"a late (reordered) packet must not move the packet-number decoding window backwards")
+			site := w.Instr
+			c.cut(R, "guard:"+spec[0]+".highestRcvdPN advanced only by authenticated packets", &Cut{Fn: f, Target: func(i ssa.Instruction) bool { return i == site },
+				Edge: EdgeRel(Rel{Op: token.EQL, X: Any(), Y: IsNil()}, false)}, "only a successfully opened packet updates the reference")
 		}
 	}
 	// packers: PopPacketNumber result compared with the header's packet number
